@@ -14,7 +14,7 @@ from . import common, evalcommon as ec
 PROPERTY = 'C19'
 
 META = {
-    'bounds': {'quick': 'scripted sequences of 14-25 requests with train_step 4/5/7; k<=7 without hook; train_step switched mid-run; objective may return +inf (k<=3); request sequences of length <=4, train_step in {-1,1,2,3}, trained/untrained start, with and without predict hook',
+    'bounds': {'quick': 'training set preloaded with 1/3 samples; scripted sequences of 14-25 requests with train_step 4/5/7; k<=7 without hook; train_step switched mid-run; objective may return +inf (k<=3); request sequences of length <=4, train_step in {-1,1,2,3}, trained/untrained start, with and without predict hook',
                'thorough': 'inf k<=4; length <=7'},
     'stubs': ['Problem.evaluate -> uninterpreted function + call log',
               'Problem.predict (the hook) -> returns None or a fresh value by symbolic choice, consultations logged',
